@@ -113,8 +113,7 @@ class Unit:
                         nl = '\n' * text[m.end(1):cl + 1].count('\n')
                         text = text[:m.end(1)] + site_rep + nl + text[cl + 1:]
                         self.drop('.' + meth + '(..) -> ' + site_rep)
-            text, n = remove_method_calls(text, meth)
-            self.drop('Result.' + meth + '(..) removed', n)
+            text = self._context_by_callee(text, meth)
         # Result<T> -> Result<T, VErr>
         def fix_result(t):
             out = []
@@ -155,6 +154,53 @@ class Unit:
         text = re.sub(r'\bpub\s*\(\s*(?:crate|super)\s*\)', 'pub', text)
         self.drop('pub(crate) -> pub', n)
         return text
+
+    OPTION_METHODS = {'checked_add', 'checked_sub', 'checked_mul', 'checked_add_signed', 'checked_sub_unsigned', 'get', 'get_mut',
+                      'first', 'last', 'pop', 'next', 'copied', 'cloned', 'take', 'remove', 'as_ref', 'as_deref', 'ok'}
+    FOREIGN_RESULT_METHODS = {'try_from', 'try_into'}
+
+    def _context_by_callee(self, text, meth):
+        """`.context(..)`/`.with_context(..)`: decided by the name of the call it is applied to:
+        Option-returning std method -> `.ok_or(VErr)`; try_from/try_into (foreign error type) -> `.ok().ok_or(VErr)`;
+        anything else is taken to be an anyhow::Result and the call is removed."""
+        pos = 0
+        pat = re.compile(r'\s*\.\s*' + meth + r'\s*\(')
+        while True:
+            mask = code_mask(text)
+            m = pat.search(mask, pos)
+            if not m:
+                return text
+            op = m.end() - 1
+            cl = match_close(mask, op)
+            # callee name of the receiver expression
+            j = m.start() - 1
+            while j >= 0 and mask[j] in ' \t\n':
+                j -= 1
+            callee = None
+            if j >= 0 and mask[j] == ')':
+                depth, k = 0, j
+                while k >= 0:
+                    if mask[k] == ')':
+                        depth += 1
+                    elif mask[k] == '(':
+                        depth -= 1
+                        if depth == 0:
+                            break
+                    k -= 1
+                mm = re.search(r'([A-Za-z_][A-Za-z0-9_]*)\s*(?:::<[^()]*>)?\s*$', mask[:k])
+                callee = mm.group(1) if mm else None
+            if callee in self.OPTION_METHODS:
+                rep = '.ok_or(VErr)'
+                self.drop(f'Option.{meth}(..) -> .ok_or(VErr)  [receiver ends in .{callee}(..)]')
+            elif callee in self.FOREIGN_RESULT_METHODS:
+                rep = '.ok().ok_or(VErr)'
+                self.drop(f'{callee}(..).{meth}(..) -> .ok().ok_or(VErr)')
+            else:
+                rep = ''
+                self.drop('Result.' + meth + '(..) removed')
+            rep = rep + '\n' * text[m.start():cl + 1].count('\n')
+            text = text[:m.start()] + rep + text[cl + 1:]
+            pos = m.start() + len(rep)
 
     # ------------------------------------------------------------------ items
     def item(self, relpath, kind, name, which=0, derives=None, pub_fields=True, rewrites=(), strip_docs=True, within=None):
